@@ -460,6 +460,25 @@ func validFor(t *rapid.T, entry string) []byte {
 				// one time in three the length field lies (too small for the fixed part of the node, or too large)
 				n = devpath.Node{Kind: "raw", Type: rapid.SampledFrom([]byte{1, 2, 3, 4, 5, 0x7f, 0, 6, 0xff}).Draw(t, "ntype"), Sub: rapid.SampledFrom([]byte{1, 2, 3, 3, 4, 4, 5, 6, 7, 8, 9, 10, 10, 10, 11, 12, 13, 14, 15, 18, 23, 24, 0, 32, 255}).Draw(t, "nsub"), // vendor-defined nodes (hardware 4, media 3, messaging 10) more often: a GUID plus data of any length
 					Body: gen.SizedBytes(48, 0, 2, 8, 16, 20, 38).Draw(t, "nbody")}
+				if rapid.Bool().Draw(t, "node_with_a_variable_tail") {
+					// the node kinds whose body is a fixed part followed by strings or data of any length (expanded ACPI:
+					// three NUL-terminated strings; URI; file path; vendor-defined; iSCSI; DNS): the fixed part as the
+					// specification sizes it, then 0..4 short strings, the last one with or without its terminator
+					k := rapid.SampledFrom([]struct {
+						t, s  byte
+						fixed int
+					}{{2, 2, 12}, {2, 2, 12}, {3, 24, 0}, {4, 4, 0}, {3, 10, 16}, {1, 4, 16}, {4, 3, 16}, {3, 19, 14}, {3, 31, 1}, {2, 1, 8}, {2, 3, 4}}).Draw(t, "tailkind")
+					n.Type, n.Sub = k.t, k.s
+					body := gen.FillBytes(t, k.fixed)
+					ns := rapid.IntRange(0, 4).Draw(t, "nstrings")
+					for i := 0; i < ns; i++ {
+						body = append(body, []byte(rapid.StringMatching(`[A-Z0-9]{0,6}`).Draw(t, "tailstr"))...)
+						if i < ns-1 || rapid.IntRange(0, 2).Draw(t, "terminated") != 0 {
+							body = append(body, 0)
+						}
+					}
+					n.Body = body
+				}
 				if rapid.IntRange(0, 2).Draw(t, "lenlies") == 0 {
 					n.LenField = rapid.SampledFrom([]uint16{1, 2, 3, 4, 5, 6, 8, 12, 16, 19, 20, 21, 24, 42, 0x100, 0x7fff, 0xffff}).Draw(t, "nlen")
 				}
